@@ -61,6 +61,14 @@ def tok_of(c: str) -> str:
     return getattr(c, "tok", None) or hexs(c)
 
 
+def rxkey(p: str) -> str:
+    """python mirror of the driver's rxKey"""
+    acc = 0
+    for i, ch in enumerate(p, 1):
+        acc = (acc + i * ord(ch)) % 1000003
+    return f"k{len(p)}_{acc}"
+
+
 def lower_std(c: int) -> int:
     """python mirror of Operon.Gates.lowerStd"""
     if 0x41 <= c <= 0x5A:
@@ -273,6 +281,11 @@ class C10(Prop):
         self.lower_exc = {c for c in range(0x110000) if chr(c).lower() != chr(lower_std(c))} | {0x3A3, 0x130}
         self.acheck = {"lower_exceptions": len(self.lower_exc), "case_variant_checks": 0, "embedding_checks": 0,
                        "regex_case_assumption_failed": 0, "regex_embedding_assumption_failed": 0}
+        keyed = {}
+        for pat in list(RX_INSTANCES) + BAD_RX + [self._parse_sig(x)[0] for x in self.mb_builtin + self.in_builtin
+                                                  if x.endswith("/1")]:
+            if keyed.setdefault(rxkey(pat), pat) != pat:
+                raise AssertionError(f"regex key collision: {pat!r} / {keyed[rxkey(pat)]!r}")
         for rx, insts in RX_INSTANCES.items():
             for i in insts:
                 if not _re.search(rx, i, _re.I):
@@ -556,7 +569,7 @@ class C10(Prop):
         """canonical list of the regex calls made since the log was cleared + the table handed to the driver"""
         calls, table = [], {}
         for (method, pat, flags, s, res) in self.rxlog:
-            tok = hexs(pat)
+            tok = rxkey(pat)
             if method != "search":
                 tok = method + ":" + tok
             if not flags & _re.IGNORECASE:
@@ -564,7 +577,7 @@ class C10(Prop):
             if s != content:
                 tok = "arg:" + tok
             calls.append(tok)
-            table.setdefault(hexs(pat), res)
+            table.setdefault(rxkey(pat), res)
         return "[" + ",".join(sorted(calls)) + "]", " ".join(f"{k}={show_bool(v)}" for k, v in table.items())
 
     def run_impl(self, case):
